@@ -576,6 +576,13 @@ int main(int argc, char **argv) {
     } else if (!strcmp(c, "setoff")) {
       asm_set_offset(x->al, atoi(tok[2]));
       oputs("O\n");
+    } else if (!strcmp(c, "getcode")) {
+      /* the getters: asm_get_code, asm_get_offset and the deprecated asm_get_buffer - they are pure (nothing may be written) */
+      uint8_t *b1 = asm_get_code(x->al);
+      int o1 = asm_get_offset(x->al);
+      uint8_t *b2 = asm_get_buffer(x->al);
+      long first = 0, can = x->ext ? check_canary(x, &first) : 0;
+      oprintf("C %d %d %ld %ld\n", b1 == b2 && (!x->ext || b1 == x->buf), o1, can, first);
     } else if (!strcmp(c, "setoffcur")) {
       /* asm_set_offset to what asm_get_offset reports right now (also -1 after a failed call) */
       asm_set_offset(x->al, asm_get_offset(x->al));
